@@ -205,6 +205,93 @@ def check_tail(res, facts):
         rule.bad("witness|tail_dropper", "the positive example in /verif/witness/shapes was not matched: rule has gone blind")
 
 
+CHUNKERS = {"par_chunks", "par_chunks_mut", "chunks", "chunks_mut", "par_chunks_exact", "par_chunks_exact_mut", "chunks_exact", "chunks_exact_mut"}
+
+
+def check_stride(res, facts):
+    """chunk i of `xs.par_chunks(K).enumerate()` starts at element i*K: whenever the closure turns the chunk index into an
+    element offset (index * S), S must be the very chunk length K handed to the chunker -- otherwise the per-chunk
+    offsets depend on how the split was made (thread count, clamping) and the parallel result differs from the
+    serial one."""
+    from rules.c07 import E, show, A
+    rule = res.rule("R-STRIDE", "element offset of chunk i is i * (the chunk length passed to the chunker)", 3)
+    for unit in ("par",):
+        for fn in facts.fns(unit=unit):
+            if "::tests::" in fn.id or fn.crate not in ("ark_ff", "ark_ec", "ark_poly", "ark_serialize"):
+                continue
+            chunk_calls = [(bb, t) for bb, t in fn.calls() if t["f"].get("name") in CHUNKERS and len(t["args"]) >= 2]
+            if not chunk_calls:
+                continue
+            ks = [E(fn, t["args"][1]) for _, t in chunk_calls]
+            for bb, t in fn.calls():
+                cids = closure_args(fn, t)
+                if not cids or not t["args"]:
+                    continue
+                recv = show(E(fn, t["args"][0]))
+                if "enumerate(" not in recv or not any(n + "(" in recv for n in CHUNKERS):
+                    continue
+                env = E(fn, t["args"][1]) if len(t["args"]) > 1 else None
+                ops = env[2] if isinstance(env, tuple) and env[0] == "agg" else ()
+                for cid in cids:
+                    clo = facts.get(cid, unit)
+                    if clo is None:
+                        continue
+                    idx = A(2, "0")
+                    from rules.c17 import to_q, NotPoly
+                    from rules.c07 import qeq
+                    from arklib.poly import Q
+
+                    def sub(t_):
+                        if not isinstance(t_, tuple) or not t_:
+                            return t_
+                        if t_[0] == "arg" and t_[1] == 1 and t_[2] and isinstance(t_[2][0], str) and t_[2][0].isdigit() and int(t_[2][0]) < len(ops):
+                            base = ops[int(t_[2][0])]
+                            return base if len(t_[2]) == 1 else ("proj", base, t_[2][1:])
+                        return tuple(sub(x) for x in t_)
+
+                    def leaf(x):
+                        if x == idx:
+                            return "i"
+                        if x in ks:
+                            return "K"
+                        return "<%s>" % show(x)[:80]
+                    found = []
+                    # (a) plain index arithmetic  i * S
+                    for bi, si, st_ in clo.stmts():
+                        r = st_.get("r")
+                        if r and r["k"] == "bin" and r["op"].startswith("Mul"):
+                            a_, b_ = E(clo, r["a"]), E(clo, r["b"])
+                            if idx in (a_, b_):
+                                found.append(("offset", sub(("bin", "Mul", a_, b_))))
+                    # (b) powers whose exponent depends on the index, through captured powers as well
+                    for _, ct in clo.calls():
+                        if ct["f"].get("name") == "pow" and len(ct["args"]) == 2:
+                            term = sub(E(clo, {"c": __import__("arklib.facts", fromlist=["place_parts"]).place_parts(ct["d"])[0]}))
+                            if "arg2.0" in show(term) or show(idx) in show(term):
+                                found.append(("power", term))
+                    n_ok = 0
+                    for kind, term in found:
+                        try:
+                            if kind == "offset":
+                                q = to_q(term, leaf)
+                            else:
+                                q = Q.const(1)
+                                tt = term
+                                while isinstance(tt, tuple) and tt[0] == "pow":
+                                    q = q * to_q(tt[2], leaf)
+                                    tt = tt[1]
+                        except NotPoly:
+                            continue
+                        if "i" not in repr(q):
+                            continue
+                        key = "%s|%s|%s|%s%d" % (fn.crate, fn.id[-80:], t["f"].get("name"), kind, n_ok)
+                        n_ok += 1
+                        if qeq(q, Q.var("i") * Q.var("K")):
+                            rule.ok(key, "%s of chunk i is i * (chunk length %s)" % (kind, show(ks[0])[:60]), fn.loc)
+                        else:
+                            rule.bad(key, "the %s used for chunk i is %s, but the chunks were cut with length K = %s: chunk i starts at element i*K, so the pieces are combined at the wrong positions and the result depends on the split (thread count)" % (kind, str(q)[:160], [show(k)[:100] for k in ks]), fn.loc)
+
+
 def run(ctx, res):
     facts = ctx.facts(["ws", "par", "shapes"])
     res.analysed = facts.stats()
@@ -215,6 +302,7 @@ def run(ctx, res):
     chunk.check_chunks(rc, facts, ["par"])
     check_threads(res, facts)
     check_tail(res, facts)
+    check_stride(res, facts)
     return {
         "level": "other",
         "explanation": "Effect/ownership and sibling rules over the MIR of the crates built with their `parallel` features, compared with the serial build: captured state of every rayon closure is Freeze and free of synchronisation primitives, parallel reductions are over commutative monoids, serial and parallel variants of a function share their kernels, chunk accumulators start from the monoid identity. Together with Rust's Send/Sync typing this decides independence of the interleaving for a fixed split. Correctness of per-chunk offsets / tails for every thread count is arithmetic on run-time values and NOT decided (the `configurations` half of the quantifier).",
